@@ -1273,11 +1273,57 @@ func c07Invariant(c *Ctx, compile *ssa.Function) {
 		}
 		return true
 	}
-	canReachMark := func(fn *ssa.Function, from *ssa.BasicBlock) (bool, string) {
+	var scopeFns []*ssa.Function
+	for _, f := range pkgClosure(compile) {
+		if !skip[f] && prog.PkgOf(f) == "core" {
+			scopeFns = append(scopeFns, f)
+		}
+	}
+	var canReachMarkD func(fn *ssa.Function, from *ssa.BasicBlock, depth int) (bool, string)
+	// carried: errv (a value of fn) is a non-nil error; can control still arrive at the mark?
+	carried := func(fn *ssa.Function, errv ssa.Value, depth int) (bool, string) {
+		if errv == nil {
+			return true, fn.Name() + " drops the error"
+		}
+		edges := nonNilEdges(errv)
+		handedOn := false
+		for _, r := range ssau.Referrers(errv) {
+			if ret, isRet := r.(*ssa.Return); isRet && len(ret.Results) > 0 && ret.Results[len(ret.Results)-1] == errv {
+				handedOn = true
+			}
+		}
+		if len(edges) == 0 && !handedOn {
+			return true, fn.Name() + " does not test the error"
+		}
+		for _, e := range edges {
+			if can, how := canReachMarkD(fn, e, depth+1); can {
+				if how == "" {
+					how = fn.Name() + " goes on after the error"
+				}
+				return true, how
+			}
+		}
+		if handedOn && fn != compile {
+			// `return helper(...)`: the error is this function's own result; its callers decide
+			for _, b := range fn.Blocks {
+				if ret, isRet := b.Instrs[len(b.Instrs)-1].(*ssa.Return); isRet && len(ret.Results) > 0 && ret.Results[len(ret.Results)-1] == errv {
+					if can, how := canReachMarkD(fn, b, depth+1); can {
+						return true, how
+					}
+					break
+				}
+			}
+		}
+		return false, ""
+	}
+	canReachMarkD = func(fn *ssa.Function, from *ssa.BasicBlock, depth int) (bool, string) {
 		if fn == compile {
 			return from == mark.Block() || flow.Reachable(from, mark.Block(), nil), ""
 		}
-		// a helper called from Compile: every return reachable from here must carry an error ...
+		if depth > 6 {
+			return true, "helper nesting too deep"
+		}
+		// a helper in Compile's closure: every return reachable from here must carry an error ...
 		blocks := flow.ReachableFrom(from, nil)
 		blocks[from] = true
 		for b := range blocks {
@@ -1289,10 +1335,10 @@ func c07Invariant(c *Ctx, compile *ssa.Function) {
 				return true, "helper " + fn.Name() + " can return without an error (" + c.pos(ret) + ")"
 			}
 		}
-		// ... and Compile must not go on to the mark with that error
-		sites := callSitesOf(fn, []*ssa.Function{compile})
+		// ... and no caller may go on to the mark with that error
+		sites := callSitesOf(fn, scopeFns)
 		if len(sites) == 0 {
-			return true, "helper " + fn.Name() + " is not called directly by Compile (cannot establish)"
+			return true, "helper " + fn.Name() + " is not called from Compile's closure (cannot establish)"
 		}
 		for _, site := range sites {
 			cl, isCall := site.(*ssa.Call)
@@ -1305,47 +1351,34 @@ func c07Invariant(c *Ctx, compile *ssa.Function) {
 			} else {
 				errv = cl
 			}
-			if errv == nil {
-				return true, "Compile drops the error of " + fn.Name()
+			if can, how := carried(site.Parent(), errv, depth); can {
+				return true, how
 			}
-			okEdge := false
-			for _, e := range nonNilEdges(errv) {
-				okEdge = true
-				if e == mark.Block() || flow.Reachable(e, mark.Block(), nil) {
-					return true, "Compile goes on after an error from " + fn.Name()
-				}
-			}
-			if !okEdge {
-				return true, "Compile does not test the error of " + fn.Name()
-			}
-			// on the error-free edge nothing is claimed
 		}
 		return false, ""
 	}
-	underNodesLoop := func(fn *ssa.Function, b *ssa.BasicBlock) bool {
-		check := func(f *ssa.Function, blk *ssa.BasicBlock) bool {
-			for _, l := range enclosingLoops(flow.Loops(f), blk) {
-				if op := loopOperand(l); op != nil {
-					if _, is := isFieldLoad(op, "core", "Spec", "Nodes"); is {
-						return true
-					}
+	canReachMark := func(fn *ssa.Function, from *ssa.BasicBlock) (bool, string) { return canReachMarkD(fn, from, 0) }
+	var underNodesLoopD func(fn *ssa.Function, b *ssa.BasicBlock, depth int) bool
+	underNodesLoopD = func(fn *ssa.Function, b *ssa.BasicBlock, depth int) bool {
+		for _, l := range enclosingLoops(flow.Loops(fn), b) {
+			if op := loopOperand(l); op != nil {
+				if _, is := isFieldLoad(op, "core", "Spec", "Nodes"); is {
+					return true
 				}
 			}
+		}
+		if fn == compile || depth > 4 {
 			return false
 		}
-		if check(fn, b) {
-			return true
-		}
-		if fn != compile {
-			for _, site := range callSitesOf(fn, []*ssa.Function{compile}) {
-				if !check(compile, site.Block()) {
-					return false
-				}
+		sites := callSitesOf(fn, scopeFns)
+		for _, site := range sites {
+			if !underNodesLoopD(site.Parent(), site.Block(), depth+1) {
+				return false
 			}
-			return len(callSitesOf(fn, []*ssa.Function{compile})) > 0
 		}
-		return false
+		return len(sites) > 0
 	}
+	underNodesLoop := func(fn *ssa.Function, b *ssa.BasicBlock) bool { return underNodesLoopD(fn, b, 0) }
 	_ = loops
 	var visitFns []*ssa.Function
 	for _, f := range pkgClosure(compile) {
@@ -1634,6 +1667,28 @@ func c07Loader(c *Ctx) {
 					if lenBound(ft, base) > k {
 						ok = true
 					}
+				}
+				// the document handed to a helper: the test may be the caller's
+				if pr, isP := base.(*ssa.Parameter); isP && !ok {
+					sites := callSitesOf(f, fns)
+					all := len(sites) > 0
+					for _, site := range sites {
+						okSite := false
+						for pi, fp := range f.Params {
+							if fp != pr || pi >= len(site.Common().Args) {
+								continue
+							}
+							for _, ft := range flow.FactsAt(site.Block()) {
+								if lenBound(ft, site.Common().Args[pi]) > k {
+									okSite = true
+								}
+							}
+						}
+						if !okSite {
+							all = false
+						}
+					}
+					ok = all
 				}
 				c.R.Check(ok, "C07-R10", key, c.pos(in), "dominated by a test that the document is longer than the index", "a byte of the document is read without a test of its length: an empty document (or one that could not be read) crashes the loader instead of yielding an error")
 			}
